@@ -102,6 +102,21 @@ def switch_obligation_(ck, path):
                         readers.append("%s (line %d)" % (n.name, x.lineno))
                         break
         ck.oblige(name, not readers, "neuroml.build_time_validation is read in: " + ", ".join(readers), kind="instance")
+        # ... and a failure inside the recursion is not swallowed: no handler for RecursionError / MemoryError / a blanket
+        # Exception / BaseException / bare except without a re-raise in those functions
+        swallow = []
+        for n in ast.walk(ast.parse(open(path).read())):
+            if isinstance(n, ast.FunctionDef) and (n.name.startswith("validate") or n.name.startswith("_validate")):
+                for h in ast.walk(n):
+                    if not isinstance(h, ast.ExceptHandler):
+                        continue
+                    names = [] if h.type is None else [getattr(x, "id", getattr(x, "attr", "?")) for x in
+                                                       (h.type.elts if isinstance(h.type, ast.Tuple) else [h.type])]
+                    broad = h.type is None or any(x in ("RecursionError", "RuntimeError", "MemoryError", "Exception", "BaseException") for x in names)
+                    if broad and not any(isinstance(x, ast.Raise) for x in ast.walk(h)):
+                        swallow.append("%s (line %d: except %s)" % (n.name, h.lineno, ", ".join(names) or "<bare>"))
+        ck.oblige("validate:recursion-does-not-swallow-RecursionError-or-blanket-exceptions", not swallow,
+                  "handlers without re-raise: " + ", ".join(swallow), kind="instance")
     except Exception as e:  # noqa
         ck.oblige(name, False, repr(e), kind="instance")
 
